@@ -44,6 +44,32 @@ fn hex(b: &[u8]) -> String {
     }
     s
 }
+/// An `io::Write` that accepts only a few bytes per `write` call (1, 2, 3, 7, then everything,
+/// cycling) and implements nothing but `write`/`flush` (so `write_vectored` is the default: first
+/// non-empty slice only).  Legal behaviour for a writer; a library that uses `write_all` produces
+/// the same bytes as with a `Vec`.
+struct ShortW {
+    v: Vec<u8>,
+    max: usize,
+}
+static SHORTW_CTR: AtomicUsize = AtomicUsize::new(0);
+impl ShortW {
+    fn new() -> ShortW {
+        let k = SHORTW_CTR.fetch_add(1, Ordering::Relaxed);
+        ShortW { v: vec![], max: [1usize, 2, 3, 7, usize::MAX][k % 5] }
+    }
+}
+impl Write for ShortW {
+    fn write(&mut self, b: &[u8]) -> io::Result<usize> {
+        let n = b.len().min(self.max);
+        self.v.extend_from_slice(&b[..n]);
+        Ok(n)
+    }
+    fn flush(&mut self) -> io::Result<()> {
+        Ok(())
+    }
+}
+
 fn unhex(s: &str) -> Vec<u8> {
     if s == "-" {
         return vec![];
@@ -300,15 +326,15 @@ fn dump_fa(rec: &fasta::RefRecord) -> String {
         rec.id_desc(),
         rec.id_desc_bytes(),
     ));
-    let mut v = vec![];
+    let mut v = ShortW::new();
     rec.write_unchanged(&mut v).unwrap();
-    s.push_str(&format!(" wu={}", hex(&v)));
-    let mut v = vec![];
+    s.push_str(&format!(" wu={}", hex(&v.v)));
+    let mut v = ShortW::new();
     rec.write(&mut v).unwrap();
-    s.push_str(&format!(" w={}", hex(&v)));
-    let mut v = vec![];
+    s.push_str(&format!(" w={}", hex(&v.v)));
+    let mut v = ShortW::new();
     rec.write_wrap(&mut v, 3).unwrap();
-    s.push_str(&format!(" ww={}", hex(&v)));
+    s.push_str(&format!(" ww={}", hex(&v.v)));
     // owned-record views must agree with the borrowed ones
     let ov = head_views(
         o.id_bytes(),
@@ -343,19 +369,19 @@ fn dump_fq(rec: &fastq::RefRecord) -> String {
         rec.id_desc(),
         rec.id_desc_bytes(),
     ));
-    let mut v = vec![];
+    let mut v = ShortW::new();
     rec.write_unchanged(&mut v).unwrap();
-    s.push_str(&format!(" wu={}", hex(&v)));
-    let mut v = vec![];
+    s.push_str(&format!(" wu={}", hex(&v.v)));
+    let mut v = ShortW::new();
     rec.write(&mut v).unwrap();
-    s.push_str(&format!(" w={}", hex(&v)));
+    s.push_str(&format!(" w={}", hex(&v.v)));
     let o = rec.to_owned_record();
     if o.head() != rec.head() || o.seq() != rec.seq() || o.qual() != rec.qual() {
         s.push_str(" OWNED-DIFFERS");
     }
-    let mut v2 = vec![];
+    let mut v2 = ShortW::new();
     o.write(&mut v2).unwrap();
-    if v2 != v {
+    if v2.v != v.v {
         s.push_str(" OWNED-WRITE-DIFFERS");
     }
     s
@@ -782,49 +808,49 @@ fn run_writer(out: &mut dyn Write, t: &[&str]) {
     let (id, desc) = split_head(&head);
     let res = guarded(|| {
         let mut s = String::from("wr");
-        let mut v = vec![];
+        let mut v = ShortW::new();
         fasta::write_to(&mut v, &head, &seq).unwrap();
-        s.push_str(&format!(" to={}", hex(&v)));
-        let mut v = vec![];
+        s.push_str(&format!(" to={}", hex(&v.v)));
+        let mut v = ShortW::new();
         fasta::write_parts(&mut v, id, desc, &seq).unwrap();
-        s.push_str(&format!(" pa={}", hex(&v)));
-        let mut v = vec![];
+        s.push_str(&format!(" pa={}", hex(&v.v)));
+        let mut v = ShortW::new();
         fasta::write_wrap(&mut v, id, desc, &seq, w).unwrap();
-        s.push_str(&format!(" wr={}", hex(&v)));
-        let mut v = vec![];
+        s.push_str(&format!(" wr={}", hex(&v.v)));
+        let mut v = ShortW::new();
         fasta::write_wrap_seq(&mut v, &seq, w).unwrap();
-        s.push_str(&format!(" ws={}", hex(&v)));
-        let mut v = vec![];
+        s.push_str(&format!(" ws={}", hex(&v.v)));
+        let mut v = ShortW::new();
         fasta::write_seq_iter(&mut v, chunks.iter().copied()).unwrap();
-        s.push_str(&format!(" si={}", hex(&v)));
-        let mut v = vec![];
+        s.push_str(&format!(" si={}", hex(&v.v)));
+        let mut v = ShortW::new();
         fasta::write_wrap_seq_iter(&mut v, chunks.iter().copied(), w).unwrap();
-        s.push_str(&format!(" wi={}", hex(&v)));
+        s.push_str(&format!(" wi={}", hex(&v.v)));
         let o = fasta::OwnedRecord { head: head.clone(), seq: seq.clone() };
-        let mut v = vec![];
+        let mut v = ShortW::new();
         o.write(&mut v).unwrap();
-        s.push_str(&format!(" ow={}", hex(&v)));
-        let mut v = vec![];
+        s.push_str(&format!(" ow={}", hex(&v.v)));
+        let mut v = ShortW::new();
         o.write_wrap(&mut v, w).unwrap();
-        s.push_str(&format!(" oww={}", hex(&v)));
-        let mut v = vec![];
+        s.push_str(&format!(" oww={}", hex(&v.v)));
+        let mut v = ShortW::new();
         fastq::write_to(&mut v, &head, &seq, &qual).unwrap();
-        s.push_str(&format!(" qto={}", hex(&v)));
-        let mut v = vec![];
+        s.push_str(&format!(" qto={}", hex(&v.v)));
+        let mut v = ShortW::new();
         fastq::write_parts(&mut v, id, desc, &seq, &qual).unwrap();
-        s.push_str(&format!(" qpa={}", hex(&v)));
+        s.push_str(&format!(" qpa={}", hex(&v.v)));
         let q = fastq::OwnedRecord { head: head.clone(), seq: seq.clone(), qual: qual.clone() };
-        let mut v = vec![];
+        let mut v = ShortW::new();
         q.write(&mut v).unwrap();
-        s.push_str(&format!(" qow={}", hex(&v)));
+        s.push_str(&format!(" qow={}", hex(&v.v)));
         // the pieces write_to / write_parts are made of
-        let mut v = vec![];
+        let mut v = ShortW::new();
         fasta::write_head(&mut v, &head).unwrap();
         fasta::write_seq(&mut v, &seq).unwrap();
-        s.push_str(&format!(" hs={}", hex(&v)));
-        let mut v = vec![];
+        s.push_str(&format!(" hs={}", hex(&v.v)));
+        let mut v = ShortW::new();
         fasta::write_id_desc(&mut v, id, desc).unwrap();
-        s.push_str(&format!(" idd={}", hex(&v)));
+        s.push_str(&format!(" idd={}", hex(&v.v)));
         s
     });
     match res {
